@@ -21,6 +21,10 @@ REPO = os.environ.get('PYCRAFT_REPO', '/repo')
 NCPU = os.cpu_count() or 4
 
 
+SESSION_LOG = []        # client frames of every TCP connection of every execution of the running check (harness/session.py)
+GRAMMAR_OWNERS = ('C01', 'C09', 'C10', 'C11', 'C12')    # properties whose statement covers the client's frame grammar
+
+
 class MachineryError(Exception):
     """Something in the verification machinery itself failed (exit 2)."""
 
@@ -235,7 +239,39 @@ class Check(object):
         self.violations.append((key, what, path))
 
     # -- finish
+    def session_grammar(self):
+        """Every client frame of every execution this check made, judged by the connection-state grammar Trace_Session.tla.
+        A rejection is a violation for the properties that state the grammar (framing, negotiation, login, play, writers) and
+        a recorded deviation (model_drift) in the other checks."""
+        if not SESSION_LOG:
+            return
+        import re as _re
+        log = [t for t in SESSION_LOG if t['fr']]
+        del SESSION_LOG[:]
+        tf = os.path.join(self.work, 'sessions.json')
+        with open(tf, 'w') as f:
+            json.dump(log, f)
+        r = self.tlc('Trace_Session', 'Trace_Session.cfg', env={'TRACE_FILE': tf}, must_pass=False)
+        self.extra['client_connections_judged_by_session_grammar'] = len(log)
+        self.extra['client_frames_judged_by_session_grammar'] = sum(len(t['fr']) for t in log)
+        if r.violated:
+            m = _re.search(r'tid = (\d+)', r.out)
+            why = _re.findall(r'rejected = "([^"]*)"', r.out)
+            ln = _re.findall(r'\bl = (\d+)', r.out)
+            bad = log[int(m.group(1)) - 1] if m else None
+            what = 'a connection of this check violates the session grammar (Trace_Session, %s): %s; frames around: %r' % (
+                r.violated[0], (why[-1] if why and why[-1] else 'undecodable bytes'),
+                bad and bad['fr'][max(0, int(ln[-1]) - 3):int(ln[-1]) + 1] if ln else None)
+            if self.pid in GRAMMAR_OWNERS:
+                self.violation('session-grammar:%s' % _re.sub(r'[^a-z]+', '-', (why[-1] if why and why[-1] else 'undecodable').lower())[:60],
+                               what, {'connection': bad})
+            else:
+                self.drift.append({'session-grammar': what})
+        elif not r.ok:
+            raise MachineryError('Trace_Session failed: %s' % r.errors[:3])
+
     def finish(self, rule, level='model_checking', exhaustive=False):
+        self.session_grammar()
         wall = time.time() - self.t0
         nd = len(self.distinct) + self.distinct_count
         cov = {
